@@ -54,6 +54,17 @@ func endsInFailure(stmts []ast.Stmt) bool {
 			}
 		}
 	case *ast.ReturnStmt:
+		if len(s.Results) == 1 {
+			// a function whose only result is the error
+			switch r := s.Results[0].(type) {
+			case *ast.CallExpr:
+				fn := exprShort(r.Fun)
+				return fn == "fmt.Errorf" || fn == "errors.New"
+			case *ast.Ident:
+				return r.Name == "err"
+			}
+			return false
+		}
 		if len(s.Results) >= 2 {
 			if id, ok := s.Results[len(s.Results)-1].(*ast.Ident); ok && id.Name == "nil" {
 				return false
